@@ -40,6 +40,7 @@ pub struct Generator
 	local_variables: std::collections::HashMap<u32, LLVMValueRef>,
 	local_labeled_blocks: std::collections::HashMap<u32, LLVMBasicBlockRef>,
 	used_intrinsics: std::collections::HashMap<&'static str, LLVMValueRef>,
+	structure_types: std::collections::HashMap<String, LLVMTypeRef>,
 	target_triple: CString,
 	data_layout: CString,
 	type_of_usize: LLVMTypeRef,
@@ -78,6 +79,7 @@ impl Generator
 				local_variables: std::collections::HashMap::new(),
 				local_labeled_blocks: std::collections::HashMap::new(),
 				used_intrinsics: std::collections::HashMap::new(),
+				structure_types: std::collections::HashMap::new(),
 				target_triple,
 				data_layout,
 				type_of_usize,
@@ -141,6 +143,7 @@ impl Generator
 		self.local_variables.clear();
 		self.local_labeled_blocks.clear();
 		self.used_intrinsics.clear();
+		self.structure_types.clear();
 
 		Ok(())
 	}
@@ -173,8 +176,29 @@ impl Generator
 	) -> Result<(), anyhow::Error>
 	{
 		let name = CString::new(structure_name)?;
-		unsafe { LLVMStructCreateNamed(self.context, name.as_ptr()) };
+		let context = self.context;
+		self.structure_types
+			.entry(structure_name.to_string())
+			.or_insert_with(|| unsafe {
+				LLVMStructCreateNamed(context, name.as_ptr())
+			});
 		Ok(())
+	}
+
+	/// Look up the type of a structure declared in the current module.
+	/// Named types live in the LLVM context, which all modules share,
+	/// so looking them up by name alone could yield another module's type.
+	fn get_structure_type(
+		&self,
+		structure_name: &str,
+	) -> Result<LLVMTypeRef, anyhow::Error>
+	{
+		if let Some(&struct_type) = self.structure_types.get(structure_name)
+		{
+			return Ok(struct_type);
+		}
+		let name = CString::new(structure_name)?;
+		Ok(unsafe { LLVMGetTypeByName(self.module, name.as_ptr()) })
 	}
 
 	/// Generate surface level IR for constants, structures and
@@ -531,16 +555,16 @@ fn declare(
 			depth: _,
 		} =>
 		{
-			let name = CString::new(&name.name as &str)?;
-			let struct_type = unsafe {
-				let x = LLVMGetTypeByName(llvm.module, name.as_ptr());
+			let struct_type = {
+				let x = llvm.get_structure_type(&name.name)?;
 				if !x.is_null()
 				{
 					x
 				}
 				else
 				{
-					LLVMStructCreateNamed(llvm.context, name.as_ptr())
+					let name = CString::new(&name.name as &str)?;
+					unsafe { LLVMStructCreateNamed(llvm.context, name.as_ptr()) }
 				}
 			};
 
@@ -1369,8 +1393,7 @@ impl Generatable for ValueType
 				size_in_bytes: _,
 			} =>
 			{
-				let struct_name = CString::new(&identifier.name as &str)?;
-				unsafe { LLVMGetTypeByName(llvm.module, struct_name.as_ptr()) }
+				llvm.get_structure_type(&identifier.name)?
 			}
 			ValueType::UnresolvedStructOrWord { .. } => unreachable!(),
 			ValueType::Pointer { deref_type }
@@ -2761,8 +2784,7 @@ fn format_struct(
 	buffer.add_user_text(&struct_name.name, llvm)?;
 	buffer.add_text(" {");
 
-	let sname = CString::new(&struct_name.name as &str)?;
-	let struct_type = unsafe { LLVMGetTypeByName(llvm.module, sname.as_ptr()) };
+	let struct_type = llvm.get_structure_type(&struct_name.name)?;
 	// TODO print members
 	let _ = (argument, struct_type);
 
